@@ -486,7 +486,7 @@ func (e *Engine) bindClauses(bc *BoundContract) error {
 	for i := range fc.Clauses {
 		cl := &fc.Clauses[i]
 		switch cl.Kind {
-		case "requires", "ensures", "invariant", "decreases", "modifies", "fresh", "freshornil", "assert", "assume", "split", "appends", "appendsAll", "copies", "mapStore", "mapDelete", "uselemma", "exit":
+		case "requires", "ensures", "invariant", "decreases", "modifies", "fresh", "freshornil", "assert", "assume", "split", "appends", "appendsAll", "copies", "mapStore", "mapDelete", "uselemma", "exit", "onpanic":
 			if ci >= len(calls) {
 				return fmt.Errorf("%s:%d: clause/statement mismatch", fc.File, cl.Line)
 			}
@@ -497,6 +497,8 @@ func (e *Engine) bindClauses(bc *BoundContract) error {
 				bc.Requires = append(bc.Requires, ClauseExpr{call.Args[0], cl, bc})
 			case "ensures":
 				bc.Ensures = append(bc.Ensures, ClauseExpr{call.Args[0], cl, bc})
+			case "onpanic":
+				bc.OnPanic = append(bc.OnPanic, ClauseExpr{call.Args[0], cl, bc})
 			case "assert", "assume":
 				bc.Asserts = append(bc.Asserts, ClauseExpr{call.Args[0], cl, bc})
 			case "appends":
